@@ -97,3 +97,19 @@ def pad_width(v, cnt, pad):
     """length of padleft/padright's result: the value is padded to cnt
     characters whenever the pad string is non-empty"""
     return max(len(v), cnt) if len(pad) > 0 else len(v)
+
+
+def norm_add(title, ns, local_names):
+    """the key under which add_page(title, ns) stores a page: the local
+    namespace prefix is added when missing (never for the main namespace) and a
+    literal 'Main:' prefix is dropped"""
+    prefix = (local_names.get(ns, "") + ":") if ns != 0 else ""
+    t = title if (ns == 0 or title.startswith(prefix)) else prefix + title
+    return t[5:] if t.startswith("Main:") else t
+
+
+def norm_get_main(title):
+    """the key get_page(title, 0) looks up: underscores are blanks, a literal
+    'Main:' prefix is dropped"""
+    t = title.replace("_", " ")
+    return t[5:] if t.startswith("Main:") else t
